@@ -727,8 +727,15 @@ pub fn rec_script(args: &Args) {
         n += 1;
         let mut h = H::new(&mut out, v["M"].as_u64().unwrap() as usize, v["ttl"].as_u64().unwrap(), start);
         let tag = json!({"kind": "script", "n": n});
+        let tick = v["tick"].as_u64().unwrap_or(0);
         for st in v["steps"].as_array().unwrap() {
-            run_step(&mut h, &mut out, st, &tag);
+            if st["op"] == "sleep" && st.get("ms").is_none() {
+                // model ticks are mapped to real time: the trace specification judges by the logged times
+                let ms = st["ticks"].as_u64().unwrap_or(1) * tick;
+                run_step(&mut h, &mut out, &json!({"op": "sleep", "ms": ms}), &tag);
+            } else {
+                run_step(&mut h, &mut out, st, &tag);
+            }
         }
     }
     let e = out.finish();
